@@ -279,15 +279,17 @@ func (ts *TStateView) Remove(ctx context.Context, key []byte) error {
 		pastAllocates: chunks(ts.allocates, k),
 		pastWrites:    chunks(ts.writes, k),
 	})
-	if _, ok := ts.allocates[k]; ok {
+	if _, ok := ts.allocates[k]; ok && isUnchanged {
 		// If delete after allocating in the same view, it is
 		// as if nothing happened.
 		delete(ts.allocates, k)
 		delete(ts.writes, k)
 		delete(ts.pendingChangedKeys, k)
 	} else {
-		// If this is not a new allocation, we mark as an
+		// If this is not a new allocation (or the key was re-created after
+		// this view deleted a key that exists in the parent), we mark as an
 		// explicit delete.
+		delete(ts.allocates, k)
 		ts.writes[k] = 0
 		ts.pendingChangedKeys[k] = maybe.Nothing[[]byte]()
 	}
